@@ -30,5 +30,7 @@ MANIFEST = dict(
 
 def streams(tier, seed):
     if tier == "quick":
-        return [dict(tag="main", count=8000, seed=seed)]
-    return [dict(tag="main%d" % k, count=15000, seed=seed * 100 + k) for k in range(8)]
+        return [dict(tag="main", count=8000, seed=seed),
+                dict(tag="containers", count=2000, seed=seed + 7, extra={"mode": "containers"})]
+    return ([dict(tag="main%d" % k, count=15000, seed=seed * 100 + k) for k in range(8)] +
+            [dict(tag="containers%d" % k, count=12000, seed=seed * 100 + 50 + k, extra={"mode": "containers"}) for k in range(4)])
